@@ -353,6 +353,12 @@ func c18Regressions() []c18Case {
 		{Regress: "regress-dup-symlink-file", Sorted: true, Overwrite: "always", Features: []string{"dup"}, Tree: []*c18Node{
 			{Name: "x", Type: "symlink", Target: "@BOX@/outside/sentinel", Mtime: 1400000000},
 			{Name: "x", Type: "file", Mode: 0o777, UID: 3910, GID: 3911, Mtime: 1400003000, Content: "file x", Xattr: true}}},
+		// the same with another node in between (non-adjacent duplicate = out-of-order node): a guard
+		// that only compares with the immediate predecessor is not enough (seeded change C18-2)
+		{Regress: "regress-dup-nonadjacent", Sorted: false, Overwrite: "always", Features: []string{"dup", "unsorted"}, Tree: []*c18Node{
+			{Name: "x", Type: "symlink", Target: "@BOX@/outside/sentinel", Mtime: 1400000000},
+			{Name: "y", Type: "file", Mode: 0o644, UID: 3912, GID: 3913, Mtime: 1400003500, Content: "file y"},
+			{Name: "x", Type: "file", Mode: 0o777, UID: 3910, GID: 3911, Mtime: 1400003000, Content: "file x", Xattr: true}}},
 		// duplicate name: symlink x -> outside dir, then empty directory x
 		{Regress: "regress-dup-symlink-dir", Sorted: true, Overwrite: "always", Features: []string{"dup"}, Tree: []*c18Node{
 			{Name: "x", Type: "symlink", Target: "@UP@outside/d1", Mtime: 1400000000},
